@@ -261,6 +261,7 @@ func (g *Gateway) handleLegacyProtocol(w http.ResponseWriter, r *http.Request, t
 		}
 		defer in.Close()
 
+		verifPoint("legacy.in.attach")
 		t.transportMu.Lock()
 		attach := t.transportIn == nil && !t.outClosed
 		if attach {
